@@ -142,9 +142,12 @@ Definition bc_rank_of_g (d : bcd) (M N : Z) : Z := bc_own_row d M * bQ d + bc_ow
 (* position = nb_elem_r * local_n + local_m, with the caller's nb_elem_r *)
 Definition bc_position_g (d : bcd) (myrank M N : Z) : Z :=
   bc_nb_elem_r d myrank * bc_loc_col d N + bc_loc_row d M.
-(* key given to parsec_tiled_matrix_create_data: (n * lmt) + m; in the k-cyclic
-   data_of, m and n have been reduced modulo k*P (k*Q) at that point *)
-Definition bc_stored_key_g (d : bcd) (M N : Z) : Z :=
+(* key given to parsec_tiled_matrix_create_data: (n * lmt) + m on the global
+   coordinates, in the plain and (since fix 12f6606) in the k-cyclic data_of *)
+Definition bc_stored_key_g (d : bcd) (M N : Z) : Z := N * t_lmt (bT d) + M.
+(* the code before fix 12f6606: the k-cyclic data_of built the key after m and n had
+   been reduced modulo k*P (k*Q); kept for the regression witness *)
+Definition bc_stored_key_prefix_g (d : bcd) (M N : Z) : Z :=
   if bc_is_plain d then N * t_lmt (bT d) + M
   else (N mod (bkq d * bQ d)) * t_lmt (bT d) + M mod (bkp d * bP d).
 (* element offset of the tile in the local storage (when mat != NULL) *)
@@ -161,6 +164,8 @@ Definition bc_position (d : bcd) (myrank m n : Z) : Z :=
   bc_position_g d myrank (m + t_oi (bT d)) (n + t_oj (bT d)).
 Definition bc_stored_key (d : bcd) (m n : Z) : Z :=
   bc_stored_key_g d (m + t_oi (bT d)) (n + t_oj (bT d)).
+Definition bc_stored_key_prefix (d : bcd) (m n : Z) : Z :=
+  bc_stored_key_prefix_g d (m + t_oi (bT d)) (n + t_oj (bT d)).
 Definition bc_offset (d : bcd) (myrank m n : Z) : Z :=
   bc_offset_g d myrank (m + t_oi (bT d)) (n + t_oj (bT d)).
 Definition bc_vpid (d : bcd) (nbvp m n : Z) : Z :=
